@@ -242,12 +242,17 @@ def dump(in_db, f, **options):
             if signal.cycle_time != 0:
                 signal.add_attribute("GenSigCycleTime", signal.cycle_time)
             if "GenSigStartValue" in db.signal_defines:
-                # load assumes the raw value of 0 (of the minimum, if 0 is outside the limits) for a signal without start value
-                assumed_by_load = signal.phys2raw(0 if signal.min <= 0 <= signal.max else signal.min)
-                if signal.phys2raw(None) != 0 or assumed_by_load != 0:
-                    if db.signal_defines["GenSigStartValue"].defaultValue is None:
-                        signal.add_attribute("GenSigStartValue", signal.phys2raw(None))
-                        
+                # what load assumes for a signal without start value: the definition's default taken as physical value, else the
+                # physical value 0 (the minimum, if 0 is outside the limits)
+                start_value_default = db.signal_defines["GenSigStartValue"].defaultValue
+                if start_value_default is not None:
+                    assumed_by_load = signal.phys2raw(default_float_factory(start_value_default))
+                else:
+                    assumed_by_load = signal.phys2raw(0 if signal.min <= 0 <= signal.max else signal.min)
+                start_value = signal.phys2raw(None)
+                if start_value != assumed_by_load or (start_value_default is None and start_value != 0):
+                    signal.add_attribute("GenSigStartValue", start_value)
+
             name = normalized_names[signal]
             if compatibility:
                 name = re.sub("[^A-Za-z0-9]", whitespace_replacement, name)
